@@ -46,6 +46,9 @@ func NewSparseInt8Vector(indices []int, values []int8, n int) *SparseInt8Vector 
   }
   r := nilSparseInt8Vector(n)
   for i, k := range indices {
+    if k < 0 {
+      panic("negative index")
+    }
     if k >= n {
       panic("index larger than vector dimension")
     }
